@@ -59,7 +59,7 @@ func runC05(c *Ctx) {
 	}
 
 	if f := p.Func(pkgQRuntime, "NewAdapter"); c.NeedFunc("R05.2", f, "qruntime.NewAdapter") {
-		rw := p.CallTo("dyn:param#1.RegisterWatch", "dyn:*param#1.RegisterWatch", "dyn:*var:adapterOptions.RegisterWatch")
+		rw := p.CallTo("dyn:*.RegisterWatch")
 		c.MustFollow("R05.2", "after AddControllerInput, success only via RegisterWatch", f, addIn, ReturnsNilConst(1), CutSpec{Nodes: rw}, 1)
 		c.MustFollow("R05.2", "after AddControllerInput, the next Add only via RegisterWatch", f, addIn, addIn, CutSpec{Nodes: rw}, 1)
 	}
@@ -100,7 +100,7 @@ func runC05(c *Ctx) {
 	c.Rule("R05.3", "E1", "processEvents: an event is skipped (no notification entry) only if it is Noop, Bootstrapped, or cached traffic before bootstrap", 1)
 
 	if f := p.Method(pkgRuntime, "Runtime", "processEvents"); c.NeedFunc("R05.3", f, rtT+".processEvents") {
-		evT := func(n string) string { return "eq(*var:e.Type," + p.ConstVal(pkgState, n) + ")" }
+		evT := func(n string) string { return "eq(*var:pkg/state.Event.Type," + p.ConstVal(pkgState, n) + ")" }
 		loopHead := func(e EdgeInfo) bool { return strings.HasPrefix(e.Facts[0], "lt((phi(") }
 		// from the start of an iteration (the loop-head true edge), reaching the next loop-head test without a MapUpdate needs one of the exemptions
 		var starts []Loc
@@ -186,15 +186,15 @@ func runC05(c *Ctx) {
 		take := p.CallTo("(" + pkgRuntime + ".dedup).takeOne")
 
 		c.MustCut("R05.4", "hand-back ⊣ {takeOne}", f, OrInstr(send("param#1"), send("param#2")), CutSpec{Nodes: take}, 2)
-		c.MustCut("R05.4", "map parked on `empty` ⊣ {len(m) <= 0}", f, send("param#2"), CutSpec{Edges: FactEdge("le(call:builtin.len(*),const:0)")}, 1)
-		c.MustCut("R05.4", "map returned on `ch` ⊣ {len(m) > 0}", f, send("param#1"), CutSpec{Edges: FactEdge("gt(call:builtin.len(*),const:0)")}, 1)
+		c.MustCut("R05.4", "map parked on `empty` ⊣ {len(m) <= 0}", f, send("param#2"), CutSpec{Edges: FactEdge("le(call:builtin.len(*),const:0)", "eq(call:builtin.len(*),const:0)")}, 1)
+		c.MustCut("R05.4", "map returned on `ch` ⊣ {len(m) > 0}", f, send("param#1"), CutSpec{Edges: FactEdge("gt(call:builtin.len(*),const:0)", "ne(call:builtin.len(*),const:0)")}, 1)
 
 		mdesc := ""
 		for _, call := range p.Calls(f, "("+pkgRuntime+".dedup).takeOne") {
 			mdesc = p.ArgDesc(call, 0)
 		}
 
-		c.NoReach("R05.4", "no use of the map after handing it back, before receiving one again", f, After(f, OrInstr(send("param#1"), send("param#2"))), 2, usesMap(mdesc), CutSpec{Nodes: isSel})
+		c.NoReach("R05.4", "no use of the map after handing it back, before receiving one again", f, AfterTargets(f, OrInstr(send("param#1"), send("param#2"))), 1, usesMap(mdesc), CutSpec{Nodes: isSel})
 
 		// the delivery goroutine receives maps only from ch (never from `empty`: a parked map is by definition empty)
 		for _, in := range Find(f, isSel) {
@@ -213,7 +213,7 @@ func runC05(c *Ctx) {
 
 		if okW {
 			recv := p.DescN(CallArgs(wt[0])[0], 6)
-			okW = strings.Contains(recv, "lookup(*param#0.controllers,") && strings.Contains(recv, dbT+".GetDependentControllers(") && Glob("var:k", p.ArgDesc(wt[0], 1))
+			okW = strings.Contains(recv, "lookup(*param#0.controllers,") && strings.Contains(recv, dbT+".GetDependentControllers(") && Glob("var:pkg/controller/runtime/internal/reduced.Metadata", p.ArgDesc(wt[0], 1))
 		}
 
 		c.Check(okW, "R05.5", FuncName(f)+" :: WatchTrigger(&k) on controllers[name] for name ranging over GetDependentControllers(k)", fpos(f), "yes", "delivery loop shape changed")
@@ -223,7 +223,7 @@ func runC05(c *Ctx) {
 
 		if okK {
 			flds := StructLitFields(CallArgs(gd[0])[1])
-			okK = flds != nil && Glob("*var:k.*Namespace", p.Desc(flds["Namespace"])) && Glob("*var:k.*Typ", p.Desc(flds["Type"])) && Glob("call:github.com/siderolabs/gen/optional.Some(*var:k.*ID)", p.Desc(flds["ID"]))
+			okK = flds != nil && Glob("*var:pkg/controller/runtime/internal/reduced.Metadata.*Namespace", p.Desc(flds["Namespace"])) && Glob("*var:pkg/controller/runtime/internal/reduced.Metadata.*Typ", p.Desc(flds["Type"])) && Glob("call:github.com/siderolabs/gen/optional.Some(*var:pkg/controller/runtime/internal/reduced.Metadata.*ID)", p.Desc(flds["ID"]))
 		}
 
 		c.Check(okK, "R05.5", FuncName(f)+" :: dependents are looked up by the taken key's (namespace, type, id)", fpos(f), "yes", "lookup key differs from the notification key")
@@ -292,7 +292,7 @@ func runC05(c *Ctx) {
 
 		for _, loc := range p.EdgeSuccs(f, "eq(*.Kind,"+dr+")") {
 			for _, a := range Find(f, addIn) {
-				if a.Block().Dominates(loc.B) {
+				if dominates(a.Block(), loc.B) {
 					afterAdd = append(afterAdd, loc)
 				}
 			}
@@ -453,7 +453,7 @@ func runC05(c *Ctx) {
 		puts := p.Calls(f, "(*"+pkgQueue+".Queue[*]).Put")
 		items := p.Calls(f, pkgQRuntime+".NewQItem")
 		ok := len(puts) == 1 && len(items) == 1 && strings.Contains(p.DescN(CallArgs(items[0])[0], 8), ".Items") && p.ArgDesc(items[0], 1) == p.ConstVal(pkgQRuntime, "QJobReconcile") &&
-			strings.Contains(p.DescN(CallArgs(puts[0])[1], 4), "var:qitem")
+			(strings.Contains(p.DescN(CallArgs(puts[0])[1], 4), "var:"+pkgQRuntime+".QItem") || strings.Contains(p.DescN(CallArgs(puts[0])[1], 4), pkgQRuntime+".NewQItem("))
 		c.Check(ok, "R05.9", FuncName(f)+" :: every listed item is Put as a reconcile job", fpos(f), "yes", "listed items are not all enqueued as reconcile jobs")
 		// no path skips the Put inside the loop
 		c.MustFollow("R05.9", "each NewQItem is Put before the next item", f, p.CallTo(pkgQRuntime+".NewQItem"), OrInstr(p.CallTo(pkgQRuntime+".NewQItem"), IsReturn), CutSpec{Nodes: put}, 1)
@@ -463,7 +463,7 @@ func runC05(c *Ctx) {
 		puts := p.Calls(f, "(*"+pkgQueue+".Queue[*]).Put")
 		ok := len(puts) == 1
 		c.Check(ok, "R05.9", FuncName(f)+" :: mapped pointers are Put", fpos(f), "1 Put site", fmt.Sprintf("%d Put sites", len(puts)))
-		c.MustCut("R05.9", "mapped Put ⊣ {MapInput err == nil}", f, p.CallTo("(*"+pkgQueue+".Queue[*]).Put"), CutSpec{Edges: FactEdge("nil(*var:err)", "nil(call:(pkg/controller.QController).MapInput(*)#1)")}, 1)
+		c.MustCut("R05.9", "mapped Put ⊣ {MapInput err == nil}", f, p.CallTo("(*"+pkgQueue+".Queue[*]).Put"), CutSpec{Edges: FactEdge("nil(*var:error)", "nil(*var:error#*)", "nil(call:(pkg/controller.QController).MapInput(*)#1)")}, 1)
 
 		for _, call := range p.Calls(f, pkgQRuntime+".NewQItem") {
 			c.Check(p.ArgDesc(call, 1) == p.ConstVal(pkgQRuntime, "QJobReconcile"), "R05.9", FuncName(f)+" :: a mapped pointer becomes a reconcile job", call.Pos(), "QJobReconcile", "job "+p.ArgDesc(call, 1))
